@@ -12,12 +12,15 @@ def digitVal (c : Char) : Option Nat :=
   else if 'A' ≤ c ∧ c ≤ 'F' then some (c.toNat - 55)
   else none
 
+/-- one digit more (Horner); `none` = a rune that is no digit of the base -/
+def hornerStep (base : Nat) (acc : Option Nat) (c : Char) : Option Nat :=
+  match acc, digitVal c with
+  | some a, some d => if d < base then some (a * base + d) else none
+  | _, _ => none
+
 /-- digits in `base`, no sign, no underscores; `none` = syntax error. -/
 def natOfDigits (base : Nat) (ds : List Char) : Option Nat :=
-  if ds.isEmpty then none else
-  ds.foldl (fun acc c => match acc, digitVal c with
-    | some a, some d => if d < base then some (a * base + d) else none
-    | _, _ => none) (some 0)
+  if ds.isEmpty then none else ds.foldl (hornerStep base) (some 0)
 
 /-- `strconv.ParseInt(s, base, 64)` for `-?digits`. -/
 def parseInt64 (base : Nat) (s : List Char) : Option Int :=
